@@ -54,6 +54,9 @@ Report(p, s, d, k) ==                        \* bookkeeping common to Emit and T
 
 EmitAny(p, s, d) == p \in alive /\ s \in pending[p] /\ pending' = [pending EXCEPT ![p] = @ \ {s}] /\ Report(p, s, d, "emit")
 Emit(p, s, d)    == (Guarded => CanReport(s, d)) /\ EmitAny(p, s, d)
+(* emit() is a function of the Program it is given: the caller may keep the Program and emit it again, any number of times *)
+EmitKeepAny(p, s, d) == p \in alive /\ s \in pending[p] /\ UNCHANGED pending /\ Report(p, s, d, "emit")
+EmitKeep(p, s, d)    == (Guarded => CanReport(s, d)) /\ EmitKeepAny(p, s, d)
 
 TranspileAny(p, s, d) == p \in alive /\ UNCHANGED pending /\ Report(p, s, d, "transpile")    \* emit(parse(src)) in one go
 Transpile(p, s, d)    == (Guarded => CanReport(s, d)) /\ TranspileAny(p, s, d)
@@ -68,9 +71,10 @@ Bounded(p) == Len(hist[p]) < MaxOps
 DoSpawn     == \E p \in Procs, sd \in Seeds : hist[p] = <<>> /\ Spawn(p, sd)   \* (bound: one working life per process id)
 DoParse     == \E p \in Procs, s \in Scripts : Bounded(p) /\ Parse(p, s)
 DoEmit      == \E p \in Procs, s \in Scripts, d \in Digests : Bounded(p) /\ Emit(p, s, d)
+DoEmitKeep  == \E p \in Procs, s \in Scripts, d \in Digests : Bounded(p) /\ EmitKeep(p, s, d)
 DoTranspile == \E p \in Procs, s \in Scripts, d \in Digests : Bounded(p) /\ Transpile(p, s, d)
 DoExit      == \E p \in Procs : Exit(p)
-Next == DoSpawn \/ DoParse \/ DoEmit \/ DoTranspile \/ DoExit
+Next == DoSpawn \/ DoParse \/ DoEmit \/ DoEmitKeep \/ DoTranspile \/ DoExit
 Spec == Init /\ [][Next]_vars
 
 -----------------------------------------------------------------------------
